@@ -12,10 +12,10 @@ Import ListNotations.
    fields mention) is acyclic: the schema constants are emitted without repetition and every declared
    schema that a struct's fields mention - wherever in the field type it is nested - comes before that
    struct's schema. No class of its own remains: C09-1 (edge hidden under a one-argument Result) was repaired;
-   the classes below are those in which the two string scanners lose a name altogether (C07). *)
+   the remaining premises are C07-5 (Result field), C07-6 (odd names) and C07-7 (inline modules), in which the
+   readers of the tool still disagree with the type graph of the property text. *)
 Theorem C09_decl_before_use : forall (o : orders) (p : project) (out : list str),
   ord_ok o -> in_domain p = true ->
-  kf_c07_result_map p = false -> kf_c07_tuple_generic p = false ->
   kf_c07_field_result p = false -> kf_c07_odd_name p = false -> kf_c07_inline_mod p = false ->
   acyclic (spec_graph p) -> emitted_zod o p = Some out ->
   NoDup out /\ forall u v, In u out -> In v out -> In v (schema_refs p u) -> idx_before out v u.
@@ -23,7 +23,6 @@ Proof. exact zod_order_full. Qed.
 
 (* outside the classes every schema reference to a defined type is a recorded dependency *)
 Theorem C09_edges_recorded : forall p, in_domain p = true ->
-  kf_c07_result_map p = false -> kf_c07_tuple_generic p = false ->
   kf_c07_field_result p = false -> kf_c07_odd_name p = false -> kf_c07_inline_mod p = false -> edges_recorded_b p = true.
 Proof. exact edges_recorded_from_classes. Qed.
 
